@@ -646,6 +646,43 @@ pub fn generate(level: usize) -> Vec<Scenario> {
         }
     }
 
+    // ---- F16: partial frees of a whole-allocated huge frame racing an allocation whose
+    // row hint points to a *late* row of the bitfields (the slot's cursor sits in row 6 of a
+    // neighbouring huge frame that is used up, so the search enters the split huge frame at
+    // row 6 - rows the splitting thread has not filled yet)
+    {
+        // single class: the allocate-all trees carry the requesting class, so the slot really
+        // reserves the tree (a tree of another class would only be stolen from)
+        let single = ClassingSpec::custom("single[(0,1)]", &[(0, 1)], 0, crate::common::PolicyKind::Simple);
+        let cfg = Config::new(TREE_FRAMES, single.clone(), InitMode::AllocAll);
+        let c0 = 0u8;
+        if TREE_HUGE >= 3 {
+            let cursor_frame = HUGE_FRAMES + 6 * 64 + 3;
+            // (a fresh reservation starts at the tree's first row: the second allocation
+            // through the slot moves the cursor to the row it allocated from)
+            let setup = vec![
+                Op::Put { frame: cursor_frame, order: 0, class: c0, local: None },
+                Op::Put { frame: cursor_frame + 1, order: 0, class: c0, local: None },
+                Op::Get { order: 0, class: c0, local: Some(0), target: None },
+                Op::Get { order: 0, class: c0, local: Some(0), target: None },
+            ];
+            let ok = probe(&cfg, &setup);
+            if ok[0] == Res::Done && ok[1] == Res::Done && got(&ok[2]).is_some() && got(&ok[3]).is_some() {
+                let h = 2 * HUGE_FRAMES;
+                let put = |frame: usize, order: usize| Op::Put { frame, order, class: c0, local: None };
+                let alpha = vec![
+                    u(put(h, 0)),
+                    u(put(h + 64, 6)),
+                    u(put(h + 5 * 64, 6)),
+                    a(Op::Get { order: 0, class: c0, local: Some(0), target: None }),
+                    a(Op::Get { order: 0, class: c0, local: None, target: None }),
+                ];
+                out.extend(pairs("F16-split-late-hint", &cfg, &setup, &alpha));
+                out.extend(triples("F16-split-late-hint", &cfg, &setup, &alpha));
+            }
+        }
+    }
+
     // ---- F10: two operations per thread (allocate, then free own block)
     {
         let cfg = Config::new(TREE_FRAMES, s1.clone(), InitMode::FreeAll);
@@ -704,6 +741,11 @@ pub fn generate(level: usize) -> Vec<Scenario> {
             let cfg = Config::new(2 * TREE_FRAMES, s1.clone(), InitMode::FreeAll);
             out.extend(triples("F11-fresh-2tree", &cfg, &[], &alpha));
         }
+    }
+    // development aid: restrict the run to scenarios whose name contains VERIF_SCENARIO
+    if let Ok(f) = std::env::var("VERIF_SCENARIO") {
+        out.retain(|sc| sc.name.contains(&f));
+        eprintln!("VERIF_SCENARIO={f}: {} scenario(s)", out.len());
     }
     out
 }
